@@ -302,16 +302,25 @@ py::object PyTreeSpec::ToPickleable() const {
         const scoped_critical_section2 cs{
             node.custom != nullptr ? py::handle{node.custom->type.ptr()} : py::handle{},
             node.node_data};
-        TupleSetItem(node_states,
-                     i++,
-                     py::make_tuple(py::int_(static_cast<ssize_t>(node.kind)),
-                                    py::int_(node.arity),
-                                    node.node_data ? node.node_data : py::none(),
-                                    node.node_entries ? node.node_entries : py::none(),
-                                    node.custom != nullptr ? node.custom->type : py::none(),
-                                    py::int_(node.num_leaves),
-                                    py::int_(node.num_nodes),
-                                    node.original_keys ? node.original_keys : py::none()));
+        // Do not hand out the key lists owned by the treespec.
+        py::object node_data = (node.node_data ? node.node_data : py::none());
+        if (node.kind == PyTreeKind::Dict || node.kind == PyTreeKind::OrderedDict) [[unlikely]] {
+            node_data = ListCopy(node.node_data);
+        } else if (node.kind == PyTreeKind::DefaultDict) [[unlikely]] {
+            node_data = py::make_tuple(TupleGetItem(node.node_data, 0),
+                                       ListCopy(TupleGetItem(node.node_data, 1)));
+        }
+        TupleSetItem(
+            node_states,
+            i++,
+            py::make_tuple(py::int_(static_cast<ssize_t>(node.kind)),
+                           py::int_(node.arity),
+                           node_data,
+                           node.node_entries ? node.node_entries : py::none(),
+                           node.custom != nullptr ? node.custom->type : py::none(),
+                           py::int_(node.num_leaves),
+                           py::int_(node.num_nodes),
+                           node.original_keys ? py::object{ListCopy(node.original_keys)} : py::none()));
     }
     return py::make_tuple(node_states, py::bool_(m_none_is_leaf), py::str(m_namespace));
 }
@@ -343,7 +352,7 @@ py::object PyTreeSpec::ToPickleable() const {
                 } else [[unlikely]] {
                     if (node.kind == PyTreeKind::Dict || node.kind == PyTreeKind::DefaultDict)
                         [[likely]] {
-                        node.original_keys = thread_safe_cast<py::list>(t[7]);
+                        node.original_keys = ListCopy(thread_safe_cast<py::list>(t[7]));
                     } else [[unlikely]] {
                         throw std::runtime_error("Malformed pickled PyTreeSpec.");
                     }
@@ -366,7 +375,8 @@ py::object PyTreeSpec::ToPickleable() const {
 
             case PyTreeKind::Dict:
             case PyTreeKind::OrderedDict: {
-                node.node_data = thread_safe_cast<py::list>(t[2]);
+                // Own a copy: the list in the state still belongs to the caller.
+                node.node_data = ListCopy(thread_safe_cast<py::list>(t[2]));
                 break;
             }
 
@@ -376,7 +386,17 @@ py::object PyTreeSpec::ToPickleable() const {
                 break;
             }
 
-            case PyTreeKind::DefaultDict:
+            case PyTreeKind::DefaultDict: {
+                const auto metadata = thread_safe_cast<py::tuple>(t[2]);
+                if (metadata.size() != 2) [[unlikely]] {
+                    throw std::runtime_error("Malformed pickled PyTreeSpec.");
+                }
+                node.node_data = py::make_tuple(
+                    metadata[0],
+                    ListCopy(thread_safe_cast<py::list>(metadata[1])));
+                break;
+            }
+
             case PyTreeKind::Deque:
             case PyTreeKind::Custom: {
                 node.node_data = t[2];
